@@ -37,7 +37,7 @@ Verdict(r) ==
                    THEN "ola-options" ELSE "accepted")
              ELSE IF r.err # de THEN "error-class" ELSE "ok")
   ELSE IF r.err # "none" THEN "exception"
-  ELSE IF kw["ola"] = "stub" /\ ~SameMap(r.ola, DefOlaArgs(kw)) THEN "ola-options"
+  ELSE IF kw["ola"] = "stub" /\ ~OlaArgsOK(r.ola, kw) THEN "ola-options"
   ELSE LET B == DefBlocksOf(c, kw)
            e == DefResult(c)
            h == DefHop(kw)
